@@ -11,6 +11,13 @@ namespace XotModel
 namespace Prog2
 open HTree Spec Prog Fmap
 
+theorem get_of_value {f : Forest} {n : Nat} {v : Value} (h : f.value? n = some v) :
+    ∃ t, f.get? n = some t ∧ t.value = v := by
+  unfold Forest.value? at h
+  cases hg : f.get? n with
+  | none => rw [hg] at h; cases h
+  | some t => rw [hg] at h; exact ⟨t, rfl, Option.some.inj h⟩
+
 theorem LocalV.insertMany {v : Value} {A B : List Value} : ∀ (X : List Value), LocalV v (A ++ B) →
     (∀ x ∈ X, kidAllowed v x = true ∧ x.category = .normal) → (∀ b ∈ B, b.category = .normal) →
     LocalV v (A ++ X ++ B)
